@@ -2,8 +2,9 @@
    The chain the development has: the engines return the leftmost-first match of the IR semantics (C02, C04, C05), the
    optimizer keeps it (C03), and the IR semantics of what the parser produces is compared on every run with the
    reference semantics Spec.v on generated syntax trees (end to end, all starts, all captures).  What is *proved* about
-   that last link is one atom kind, carried all the way from the class as written to the bytes of the text: a v-mode
-   class expression without \q strings.  On any well-formed UTF-8 text, with the cursor in front of a character, the
+   that last link are the single-character atoms, carried all the way from the atom as written to the bytes of the
+   text: a literal character (with and without i, Unicode and legacy mode), the dot, and a v-mode class expression
+   without \q strings (this one in both directions).  On any well-formed UTF-8 text, with the cursor in front of a character, the
    IR node the parser model emits for the class (Model/ClassSet.v, tied to parse.rs by IR equality on every generated
    expression) and the reference semantics of the class take the same decision on that character and move to
    corresponding positions - the reference from character index i to i+1, the IR from the byte offset of character i
@@ -43,6 +44,36 @@ Proof.
   intros foldf unicode utf16 pre post c icase e f f' G caps Hw Hwf Hsf. cbv zeta. split.
   - exact (class_reference_step_back unfold_char pre post c icase e Hsf f caps).
   - exact (class_node_step_back unfold_char unfold_char_spec foldf unicode utf16 pre post c Hw icase e Hwf Hsf f' G).
+Qed.
+
+(* a literal character, with or without i, in Unicode or legacy mode (canonical form = simple case folding or the
+   legacy upper-casing): the node Parser::char_node builds (the character, or the set of its case variants) decides as
+   the reference does; eqclass is not used by a literal *)
+Theorem c01_char_atom_is_the_reference : forall foldf unicode utf16 pre post c eqclass ch icase n f f' G caps,
+  wf_text (pre ++ c :: post) -> char_node icase unicode ch = Ok n ->
+  let canon := fun x => fold_code_point x unicode in
+  let decision := char_matches canon ch icase (dec c) in
+  es_results canon eqclass (map dec (pre ++ c :: post)) (S f) (RChar ch icase) Fwd (length pre, caps) =
+    Some (if decision then [(S (length pre), caps)] else []) /\
+  ir_results (utf8_indexer foldf) unicode utf16 (concat (pre ++ c :: post)) (S f') n true (length (concat pre), G) =
+    Some (if decision then [((length (concat pre) + length c)%nat, G)] else []).
+Proof.
+  intros foldf unicode utf16 pre post c eqclass ch icase n f f' G caps Hw En.
+  exact (char_atom_step foldf unicode utf16 pre post c Hw eqclass ch icase n f f' G caps En).
+Qed.
+
+(* the dot, with and without s *)
+Theorem c01_dot_atom_is_the_reference : forall foldf unicode utf16 pre post c eqclass dot_all f f' G caps,
+  wf_text (pre ++ c :: post) ->
+  let canon := fun x => fold_code_point x unicode in
+  let decision := dot_all || negb (is_lt (dec c)) in
+  es_results canon eqclass (map dec (pre ++ c :: post)) (S f) (RAny dot_all) Fwd (length pre, caps) =
+    Some (if decision then [(S (length pre), caps)] else []) /\
+  ir_results (utf8_indexer foldf) unicode utf16 (concat (pre ++ c :: post)) (S f') (dot_node dot_all) true (length (concat pre), G) =
+    Some (if decision then [((length (concat pre) + length c)%nat, G)] else []).
+Proof.
+  intros foldf unicode utf16 pre post c eqclass dot_all f f' G caps Hw.
+  exact (dot_atom_step foldf unicode utf16 pre post c Hw eqclass dot_all f f' G caps).
 Qed.
 
 (* Non-vacuity: [\w--[k]] under iv in front of the Kelvin sign in "a" U+212A "b": both say no; in front of "a": both yes *)
